@@ -811,6 +811,11 @@ def check_dask_borders(prog, rep):
 
 
 def check(prog, rep):
+    from ..sharedrules import check_value_truthiness
+    for nm_ in ('slope', 'aspect', 'curvature', 'hillshade'):
+        if prog.public_api().get(nm_) is not None:
+            check_value_truthiness(prog, rep, 'L6-truth', prog.public_api()[nm_])
+    rep.floor('L6-truth', 4)
     check_dask_borders(prog, rep)
     ks = check_slope(prog, rep)
     ka = check_aspect(prog, rep)
